@@ -48,6 +48,7 @@ func mustLoad(repo string) *Prog {
 	p.ComputeExecReach()
 	p.ComputeInitOnly()
 	p.ComputeAppendOnly()
+	p.ComputeExternResults()
 	if os.Getenv("PVC_VERBOSE") != "" {
 		fmt.Fprintf(os.Stderr, "loaded %d functions in %.1fs\n", len(p.FuncList), time.Since(t0).Seconds())
 	}
